@@ -201,6 +201,10 @@ def shards(tier, seed):
     return out
 
 
+def opt_shards(tier):
+    return [{"pool": 0, "idpins": True, "r": r, "n": 8} for r in range(8)] + [{"pool": 3, "first": [a, b], "L": 4} for a in range(len(ALPHA)) for b in range(len(ALPHA))]
+
+
 def run_shard(sh):
     st = Stats()
     cases = POOLS[sh["pool"]]
